@@ -9,13 +9,23 @@
 -/
 import Acra.Py.MethOps
 import Acra.Gen.Src.Cls.iNetX
+import Acra.Gen.Src.Cls.PTPTime
+import Acra.Gen.Src.Cls.RTCTime
 import Acra.Model.iNetX
+import Acra.Model.Ch11
 namespace Acra.Lemmas.SrcTieCls
 open Acra Acra.Py
 
 theorem structUnpackFrom_vals_length (f : Fmt) (buf : Bytes) (off : Nat) (vs : List Nat)
     (h : structUnpackFrom f buf off = .ok vs) : vs.length = f.codes.length := by
   unfold structUnpackFrom at h
+  split at h
+  · simp only [Except.ok.injEq] at h; subst h; exact unpackCodes_length _ _ _
+  · simp at h
+
+theorem structUnpack_vals_length' (f : Fmt) (buf : Bytes) (vs : List Nat) (h : structUnpack f buf = .ok vs) :
+    vs.length = f.codes.length := by
+  unfold structUnpack at h
   split at h
   · simp only [Except.ok.injEq] at h; subst h; exact unpackCodes_length _ _ _
   · simp at h
@@ -77,4 +87,34 @@ theorem dom_ofModel (s : State) : Dom (ofModel s) := by
   simp [Dom, ofModel]
 
 end iNetX
+/-! ### PTPTime (IRIG106/Chapter11/__init__.py) — model `Model.Ch11.PTP`, every attribute carried -/
+namespace PTPTime
+abbrev Obj := Gen.Src.Cls.PTPTime.Obj
+def toModel (o : Obj) : Model.Ch11.PTP := { seconds := o.seconds.toNat, nanoseconds := o.nanoseconds.toNat }
+def ofModel (t : Model.Ch11.PTP) : Obj := { seconds := t.seconds, nanoseconds := t.nanoseconds }
+def Dom (o : Obj) : Prop := 0 ≤ o.seconds ∧ 0 ≤ o.nanoseconds
+instance (o : Obj) : Decidable (Dom o) := by unfold Dom; infer_instance
+@[simp] theorem toModel_ofModel (t : Model.Ch11.PTP) : toModel (ofModel t) = t := by
+  cases t; simp [toModel, ofModel]
+theorem ofModel_toModel (o : Obj) (h : Dom o) : ofModel (toModel o) = o := by
+  obtain ⟨h1, h2⟩ := h
+  cases o
+  simp only [toModel, ofModel] at *
+  simp only [Int.toNat_of_nonneg, h1, h2]
+end PTPTime
+
+/-! ### RTCTime — the model (`Model.Ch11.rtcPack / rtcUnpack`) is a function of the single attribute `count : Nat` -/
+namespace RTCTime
+abbrev Obj := Gen.Src.Cls.RTCTime.Obj
+def toModel (o : Obj) : Nat := o.count.toNat
+def ofModel (c : Nat) : Obj := { count := c }
+def Dom (o : Obj) : Prop := 0 ≤ o.count
+instance (o : Obj) : Decidable (Dom o) := by unfold Dom; infer_instance
+@[simp] theorem toModel_ofModel (c : Nat) : toModel (ofModel c) = c := by simp [toModel, ofModel]
+theorem ofModel_toModel (o : Obj) (h : Dom o) : ofModel (toModel o) = o := by
+  cases o
+  simp only [toModel, ofModel, Dom] at *
+  simp only [Int.toNat_of_nonneg, h]
+end RTCTime
+
 end Acra.Lemmas.SrcTieCls
